@@ -20,7 +20,7 @@ BOUNDS = {
     "thorough": "quick + lower-priority bounds symbolic too + 3 proposals (two bound-setters above one preference; budgeted)",
 }
 OUTSIDE = "more than 3 proposals; IEEE rounding"
-BUDGET = {"quick": 400, "thorough": 3000}
+BUDGET = {"quick": 400, "thorough": 1500}
 
 
 def _running(il, iu, props):
